@@ -20,6 +20,22 @@ package volume
 //@ ensures[C05] "range" forall kk :: 0 <= kk && kk < len(result) ==> 0 - 1 <= result[kk] && result[kk] <= 1
 //@ ensures[C03] consumed(snapshots) == len(snapshots) && closed(result)
 //@ ensures[C04] forall kk :: 0 <= kk && kk < len(result) ==> hor(result, kk) <= hor(snapshots, kk)
+//@ rel[C18] "price" param lam real
+//@ rel[C18] "price" assume lam > 0 && len(second(snapshots)) == len(snapshots) && (forall k :: 0 <= k && k < len(snapshots) ==> pscaled(second(snapshots)[k], snapshots[k], lam))
+//@ rel[C18] "price" assume (forall j :: 0 <= j ==> winS(volumes, c.ChaikinMoneyFlow.Sum.Period)[j] != 0) && (forall j :: 0 <= j && j < len(snapshots) ==> highs[j] != lows[j])
+//@ rel[C18] "price" use forall j :: mfvS_pscale(highs, lows, closings, volumes, second(highs), second(lows), second(closings), second(volumes), lam, j)
+//@ rel[C18] "price" step forall j :: 0 <= j && j < len(snapshots) ==> mfvS(second(highs), second(lows), second(closings), second(volumes))[j] == 1 * mfvS(highs, lows, closings, volumes)[j] && second(volumes)[j] == 1 * volumes[j]
+//@ rel[C18] "price" step forall i :: 0 <= i && i < len(cmfs) ==> cmfs[i] == cmfS(highs, lows, closings, volumes, c.ChaikinMoneyFlow.Sum.Period)[i] && second(cmfs)[i] == cmfS(second(highs), second(lows), second(closings), second(volumes), c.ChaikinMoneyFlow.Sum.Period)[i]
+//@ rel[C18] "price" use[cond] cmfS_scale(highs, lows, closings, volumes, second(highs), second(lows), second(closings), second(volumes), 1, c.ChaikinMoneyFlow.Sum.Period, len(snapshots), _)
+//@ rel[C18] "price" ensures len(second(result)) == len(result) && (forall k :: 0 <= k && k < len(result) ==> second(result)[k] == result[k])
+//@ rel[C18] "volume" param mu real
+//@ rel[C18] "volume" assume mu > 0 && len(second(snapshots)) == len(snapshots) && (forall k :: 0 <= k && k < len(snapshots) ==> vscaled(second(snapshots)[k], snapshots[k], mu))
+//@ rel[C18] "volume" assume (forall j :: 0 <= j ==> winS(volumes, c.ChaikinMoneyFlow.Sum.Period)[j] != 0) && (forall j :: 0 <= j && j < len(snapshots) ==> highs[j] != lows[j])
+//@ rel[C18] "volume" use forall j :: mfvS_vscale(highs, lows, closings, volumes, second(highs), second(lows), second(closings), second(volumes), mu, j)
+//@ rel[C18] "volume" step forall j :: 0 <= j && j < len(snapshots) ==> mfvS(second(highs), second(lows), second(closings), second(volumes))[j] == mu * mfvS(highs, lows, closings, volumes)[j] && second(volumes)[j] == mu * volumes[j]
+//@ rel[C18] "volume" step forall i :: 0 <= i && i < len(cmfs) ==> cmfs[i] == cmfS(highs, lows, closings, volumes, c.ChaikinMoneyFlow.Sum.Period)[i] && second(cmfs)[i] == cmfS(second(highs), second(lows), second(closings), second(volumes), c.ChaikinMoneyFlow.Sum.Period)[i]
+//@ rel[C18] "volume" use[cond] cmfS_scale(highs, lows, closings, volumes, second(highs), second(lows), second(closings), second(volumes), mu, c.ChaikinMoneyFlow.Sum.Period, len(snapshots), _)
+//@ rel[C18] "volume" ensures len(second(result)) == len(result) && (forall k :: 0 <= k && k < len(result) ==> second(result)[k] == result[k])
 
 //@ func EaseOfMovementStrategy.Compute
 //@ requires e.EaseOfMovement.Sma.Period >= 1 && consumed(snapshots) == 0
